@@ -21,9 +21,29 @@ def failing_slot_functions(ctx):
     return re.findall(r"SLOT (\S+) \[([^\]]*)\]", out)
 
 
+def failing_commit_paths(ctx):
+    """Concrete call sites: the functions of fstxn/commit.go that give locks back before the waiting commit, and who else commits without waiting."""
+    import re
+    f = os.path.join(ctx.scratch, "commitpaths.lean")
+    open(f, "w").write("import GoNfsd.Gen.Skeleton\nopen GoNfsd.Model.Skeleton GoNfsd.Gen.Skeleton\n"
+                       "#eval commitPaths.filterMap fun f => if commitPathCheck f then none else some s!\"CPATH {f.1} {f.2}\"\n"
+                       "#eval unstableCommitters.filterMap fun c => if unstableCommittersAllowed.contains c then none else some s!\"CPATH {c} [commits-without-waiting]\"\n")
+    rc, out = vlib.run(["lake", "build", "GoNfsd.Gen.Skeleton"], cwd=vlib.LEAN, timeout=600)
+    if rc != 0:
+        return []
+    rc, out = vlib.run(["lake", "env", "lean", f], cwd=vlib.LEAN, timeout=600)
+    return re.findall(r"CPATH (\S+) (\[.*?\])\"", out)
+
+
 def run(ctx):
     ok_go, ok_drv = seqlib.build_and_prove(ctx, MODULE, extra_parts=["skeleton"])
     if any(b.kind == "proof" for b in ctx.breaks):
+        for name, calls in failing_commit_paths(ctx)[:3]:
+            ctx.add_violation("locks-released-before-durable:" + name,
+                              "%s lets a transaction give its inode locks back while its changes are only in the journal's memory: %s" % (name, calls),
+                              {"input": {"function": name, "calls_in_source_order": calls},
+                               "how": "regenerated tables Gen/Skeleton.commitPaths / unstableCommitters checked by Model/Skeleton.commitPathCheck (theorem locks_are_given_back_after_the_waiting_commit; "
+                                      "0 journal CommitWait(arg), 1 release, 2 commitWait(arg), 3 delegation, 4 Flush): the next holder of the lock is answered from changes a crash undoes (model M14)"})
         for name, calls in failing_slot_functions(ctx)[:3]:
             ctx.add_violation("slot-before-lock:" + name,
                               "fstxn.%s touches the inode cache without holding the inode's lock: calls in source order: %s" % (name, calls),
